@@ -56,6 +56,8 @@ type Call struct {
 	// Data is merged into the request's data map (pool) / added to the data context (engine).
 	// With "Req"/"Resp" keys the two-object form of ExecuteRulesWithSpecifiedEM is used.
 	Data map[string]interface{} `json:"-"`
+	// DupNames: the name list contains a duplicate; only "no unselected rule runs" is decided.
+	DupNames bool `json:"dup_names,omitempty"`
 }
 
 func (c Call) IsSelected() bool {
